@@ -2,7 +2,7 @@
    Pinned statements only.  Engine assumption carried by the model (Model/Sqlite.v): DDL is transactional —
    everything executed through the transaction is buffered and only COMMIT publishes (SQLite, PostgreSQL;
    MySQL is excluded by the property itself). *)
-From VV.MIG Require Import Spec SeqP.
+From VV.MIG Require Import Spec SeqP BridgeP WitnessP.
 
 (* whichever set of calls fails: if the run returns Err the committed database is the original one, or
    the original one with the (empty) bookkeeping table created, or with its legacy layout upgraded *)
@@ -79,6 +79,31 @@ Check C10_first_failure_ends_run : forall F o ms d j,
   In j F -> j <> 1 -> (forall j', In j' F -> j' <> 1 -> j <= j') ->
   j < i_n (snd (run F o ms d)) -> i_n (snd (run F o ms d)) = S j.
 
+(* statements that carry their own transaction control (raw_sql scripts with BEGIN / COMMIT / END / ROLLBACK /
+   SAVEPOINT) are modelled by the extended semantics [run_x] (Model/MigratorX.v + Script.v: a nested BEGIN is
+   refused, COMMIT / END publishes and leaves the connection in auto-commit, the final commit then fails) — that
+   is what K-mig evaluates.  On every history WITHOUT such statements it is the [run] of the theorems above: *)
+Theorem C10_plain_run_x_is_run : forall F o ms d, plain_ms o ms = true -> run_x F o ms d = run F o ms d.
+Proof. exact run_x_plain. Qed.
+Print Assumptions C10_plain_run_x_is_run.
+Check C10_plain_run_x_is_run : forall F o ms d, plain_ms o ms = true -> run_x F o ms d = run F o ms d.
+
+(* ... and outside that class C10 is FALSE of the faithful model: a script with a bare COMMIT / END / ROLLBACK
+   ends the migrator's transaction mid-run; the start returns Err with nothing injected and the database changed
+   (known finding C10-raw-sql-ends-migrator-transaction, witness corpus/mig/h10_txn_bare) *)
+Theorem C10_raw_end_breaks_atomicity_refuted : exists o ms d,
+  existsb (fun m => existsb breaks_out (stmts_of o m)) ms = true /\
+  i_res (snd (run_x [] o ms d)) = Some (RErr DatabaseError) /\
+  d_applied (fst (run_x [] o ms d)) = ["CREATE TABLE ba (id integer)"; "CREATE TABLE b_c (x INTEGER)"; "ALTER TABLE ba ADD COLUMN b text"] /\
+  db_rows (fst (run_x [] o ms d)) = [(1%Z, "a"); (2%Z, "b"); (3%Z, "c")].
+Proof. exact raw_end_breaks_atomicity_refuted. Qed.
+Print Assumptions C10_raw_end_breaks_atomicity_refuted.
+Check C10_raw_end_breaks_atomicity_refuted : exists o ms d,
+  existsb (fun m => existsb breaks_out (stmts_of o m)) ms = true /\
+  i_res (snd (run_x [] o ms d)) = Some (RErr DatabaseError) /\
+  d_applied (fst (run_x [] o ms d)) = ["CREATE TABLE ba (id integer)"; "CREATE TABLE b_c (x INTEGER)"; "ALTER TABLE ba ADD COLUMN b text"] /\
+  db_rows (fst (run_x [] o ms d)) = [(1%Z, "a"); (2%Z, "b"); (3%Z, "c")].
+
 (* the two statements outside the transaction are idempotent *)
 Theorem C10_bootstrap_idempotent : forall d,
   bootstrap (bootstrap d) = bootstrap d /\ sql_create_vt (bootstrap d) = bootstrap d /\ sql_alter_vt (bootstrap d) = EngErr.
@@ -123,3 +148,12 @@ Example C10_no_retry_nonvacuous :
   i_n (snd (run (fault_points [(6, "database is locked")]) ex_o ex_ms (mkDb None []))) = 7 /\
   i_res (snd (run (fault_points [(6, "database is locked")]) ex_o ex_ms (mkDb None []))) = Some (RErr DatabaseError).
 Proof. vm_compute. split; reflexivity. Qed.
+
+(* non-vacuity: plain histories exist (all of the corpus but h9 / h10), and a wrapped script is refused at its BEGIN
+   with everything rolled back *)
+Example C10_script_nonvacuous :
+  plain_ms ex_o ex_ms = true /\
+  (let r := run_x [] ex_o [mkMig 1 "a" [mkAct [] [] ["CREATE TABLE wa (id integer)"]];
+                           mkMig 2 "b" [mkAct [] [] ["BEGIN; CREATE TABLE w_be (x INTEGER); END;"]]] (mkDb None []) in
+   i_res (snd r) = Some (RErr DatabaseError) /\ fst r = mkDb (Some (mkVt true [])) []).
+Proof. vm_compute. repeat split. Qed.
